@@ -44,11 +44,11 @@ fn main() -> ExitCode {
                 e.merge(r);
                 (e,
                  "scenarios of C08 plus a failure at a generated position of kind {Err return (try_ entry), panic before touching the \
-                  input, panic after dropping the input, panic after building the output}: ledger empty afterwards without double \
+                  input, panic after dropping the input, panic after building the output, panic after modifying the previous output}: ledger empty afterwards without double \
                   retirement, the watched allocation of the vector released, converter called exactly position+1 times, the caller \
                   receives the very Err value / panic payload. non-trivial: failure position >= 1 with >= 1 output already produced \
                   and >= 1 input not yet consumed; distinct by hash of the scenario".to_string(),
-                 format!("fault enumeration: all lengths <= {} x every failure position x 7 (kind, entry point) combinations x all masks of the preceding elements x 11 type pairs = {} scenarios", max_len, n))
+                 format!("fault enumeration: all lengths <= {} x every failure position x 9 (kind, entry point) combinations x all masks of the preceding elements x 11 type pairs = {} scenarios", max_len, n))
             }
             "C10" => {
                 let mut e = enumerate_c10(max_len.max(4));
